@@ -1527,12 +1527,17 @@ class CodeGenerator(NodeVisitor):
 
         const = node.as_const(frame.eval_ctx)
 
-        if frame.eval_ctx.autoescape:
-            const = escape(const)
-
         # Template data doesn't go through finalize.
         if isinstance(node, nodes.TemplateData):
-            return str(const)
+            return str(escape(const) if frame.eval_ctx.autoescape else const)
+
+        if frame.eval_ctx.autoescape:
+            # At runtime the value is finalized first and the result is
+            # escaped. A custom finalize must see the value itself.
+            if finalize.src is not None:
+                raise nodes.Impossible()
+
+            const = escape(const)
 
         return finalize.const(const)  # type: ignore
 
